@@ -676,12 +676,21 @@ impl<T: Smp> Inst<T> {
         let is_partial = opname == "partial";
         // ragged partial chunks: "kpc" = frames supplied per channel (partial), "zpc" = zero padding
         // from that frame on per channel (the core twin)
+        // numbers are frames; strings are relative to input_frames_next: "0", "1", "n-1", "n", "n+2"
         let per_ch = |key: &str, c: usize| -> Option<i64> {
-            op.get(key)
-                .and_then(|a| a.as_array())
-                .and_then(|a| a.get(c))
-                .and_then(|x| x.as_i64())
-                .map(|v| v.max(0).min(in_next as i64))
+            let x = op.get(key).and_then(|a| a.as_array()).and_then(|a| a.get(c))?;
+            if let Some(v) = x.as_i64() {
+                return Some(v.max(0).min(in_next as i64));
+            }
+            let n = in_next as i64;
+            match x.as_str()? {
+                "0" => Some(0),
+                "1" => Some(1.min(n)),
+                "n-1" => Some((n - 1).max(0)),
+                "n" => Some(n),
+                "n+2" => Some(n + 2),
+                _ => None,
+            }
         };
         let mut win: Vec<Vec<T>> = Vec::with_capacity(in_ch);
         for c in 0..in_ch {
@@ -702,10 +711,13 @@ impl<T: Smp> Inst<T> {
                     len = if by < 0 { 0 } else { in_next.saturating_sub(by as usize) };
                 }
             }
+            if let Some(by) = op.get("in_short").and_then(|a| a.as_array()).and_then(|a| a.get(c)).and_then(|x| x.as_i64()) {
+                len = if by < 0 { 0 } else { in_next.saturating_sub(by as usize) };
+            }
             if c < nch && !active(c) && empty_masked {
                 len = 0;
             }
-            let zf = per_ch("zpc", c).unwrap_or(zero_from);
+            let zf = per_ch("zpc", c).map(|v| v.min(in_next as i64)).unwrap_or(zero_from);
             win.push(self.fill_input(c, len, zf));
         }
         for v in &win {
@@ -730,6 +742,9 @@ impl<T: Smp> Inst<T> {
                     len = if by < 0 { 0 } else { out_next.saturating_sub(by as usize) };
                 }
             }
+            if let Some(by) = op.get("out_short").and_then(|a| a.as_array()).and_then(|a| a.get(c)).and_then(|x| x.as_i64()) {
+                len = if by < 0 { 0 } else { out_next.saturating_sub(by as usize) };
+            }
             if c < nch && !active(c) && empty_masked {
                 len = 0;
             }
@@ -743,7 +758,14 @@ impl<T: Smp> Inst<T> {
             (Some(m), None) => Some(m.clone()),
             (None, None) => None,
         };
-        let supplied: i64 = if is_partial {
+        let ragged = |key: &str| -> Option<i64> {
+            op.get(key).and_then(|a| a.as_array()).map(|a| {
+                (0..a.len()).filter_map(|c| per_ch(key, c)).map(|v| v.min(in_next as i64)).max().unwrap_or(0)
+            })
+        };
+        let supplied: i64 = if let Some(v) = ragged("kpc").or_else(|| ragged("zpc")) {
+            v
+        } else if is_partial {
             k_partial.max(0).min(in_next as i64)
         } else if zero_from >= 0 {
             zero_from.min(in_next as i64)
